@@ -127,6 +127,7 @@ type cfg struct {
 	PFail, PSlow  float64
 	PCancelAware  float64
 	PDouble       float64
+	PConcurrent   float64 // fraction of releases done by calling the same done function from several goroutines at once
 	PUnknown      float64
 	Forced        bool // gate connection.dialfail until callers joined; joiners spin into the completion window
 	JoinSleepUs   int
@@ -181,6 +182,7 @@ type trial struct {
 	hookJoin, hookFail, hookClose, hookCloseUnknown int64
 	gateJoined, gateSpinners, waitJoinSatisfied     int64
 	failed                                          int32
+	nConc, nConcShared                              int64
 	tightSpinners                                   int32
 }
 
@@ -487,8 +489,73 @@ func (t *trial) callDone(c *callRec, f func(), kind string, cr *connRec) {
 	}
 }
 
+// concurrentRelease releases one acquisition by calling the SAME done function
+// from the holder and from 1-2 helper goroutines at the same instant (all
+// spinning on one flag). The harness counts the acquisition as released once.
+// One "release" record spans all the calls (its interval encloses whichever of
+// them took effect); each helper call is also recorded as kind "concurrent".
+func (t *trial) concurrentRelease(h *handle, rng *rand.Rand) {
+	nh := 1 + rng.Intn(2)
+	skew := rng.Intn(120)
+	var ready, goFlag int32
+	pans := make([]string, nh)
+	var wg sync.WaitGroup
+	t.world.RLock()
+	for k := 0; k < nh; k++ {
+		wg.Add(1)
+		k := k
+		go func() {
+			defer wg.Done()
+			atomic.AddInt32(&ready, 1)
+			t0 := time.Now()
+			for i := 0; atomic.LoadInt32(&goFlag) == 0; i++ {
+				if i&255 == 255 && time.Since(t0) > time.Millisecond {
+					runtime.Gosched()
+				}
+			}
+			pans[k] = safeDone(h.done)
+		}()
+	}
+	// Wait until the helpers are running (they then spin), so that all calls start together.
+	spinUntil(func() bool { return atomic.LoadInt32(&ready) == int32(nh) }, 2*time.Millisecond)
+	others := atomic.AddInt32(&h.cr.holders, -1)
+	d := doneRec{Kind: "release"}
+	d.Call = tick()
+	atomic.StoreInt32(&goFlag, 1)
+	for i := 0; i < skew; i++ {
+		atomic.LoadInt32(&ready)
+	}
+	d.Panic = safeDone(h.done)
+	wg.Wait()
+	d.Ret = tick()
+	t.world.RUnlock()
+	for _, p := range pans {
+		if p != "" && d.Panic == "" {
+			d.Panic = p
+		}
+	}
+	h.c.Dones = append(h.c.Dones, d)
+	for k := 0; k < nh; k++ {
+		h.c.Dones = append(h.c.Dones, doneRec{Kind: "concurrent", Call: d.Call, Ret: d.Ret})
+	}
+	atomic.AddInt64(&t.nConc, int64(nh))
+	if others > 0 {
+		atomic.AddInt64(&t.nConcShared, int64(nh))
+	}
+	if d.Panic != "" {
+		t.viol("panic:done", h.c.Addr, "the done function of worker %d call #%d on %s, called from %d goroutines at once, panicked: %s", h.c.Worker, h.c.Seq, t.addrs[h.c.Addr], nh+1, d.Panic)
+	}
+}
+
 func (t *trial) release(h *handle, rng *rand.Rand, st *[]stale) {
 	t.sample(h)
+	if rng.Float64() < t.cfg.PConcurrent {
+		t.concurrentRelease(h, rng)
+		if rng.Intn(4) == 0 {
+			*st = append(*st, stale{h.c, h.done, "again"})
+		}
+		return
+	}
 	t.callDone(h.c, h.done, "release", h.cr)
 	if rng.Float64() < t.cfg.PDouble {
 		if rng.Intn(2) == 0 {
@@ -958,6 +1025,7 @@ func genCfg(rng *rand.Rand) cfg {
 	c.PSlow = []float64{0, 0.3, 0.6}[rng.Intn(3)]
 	c.PCancelAware = []float64{0, 0.15, 0.4}[rng.Intn(3)]
 	c.PDouble = 0.2
+	c.PConcurrent = []float64{0.02, 0.06, 0.12}[rng.Intn(3)]
 	c.PUnknown = []float64{0, 0, 0.03, 0.08}[rng.Intn(4)]
 	c.Forced = rng.Intn(2) == 0
 	c.JoinSleepUs = rng.Intn(40)
@@ -1070,6 +1138,8 @@ func runTrial(r *vlib.Run, mode string, trialNo int, rng *rand.Rand) (alive bool
 				again++
 			case "noop":
 				noop++
+			case "concurrent":
+				continue
 			default:
 				continue
 			}
@@ -1145,6 +1215,8 @@ func runTrial(r *vlib.Run, mode string, trialNo int, rng *rand.Rand) (alive bool
 	r.Count("done_calls", dones)
 	r.Count("done_second_calls", again)
 	r.Count("done_calls_of_failed_requests", noop)
+	r.Count("done_concurrent_extra_calls_of_the_same_function", atomic.LoadInt64(&t.nConc))
+	r.Count("done_concurrent_extra_calls_while_other_holders_of_the_conn_existed", atomic.LoadInt64(&t.nConcShared))
 	r.Count("done_second_calls_while_another_handle_of_the_address_was_held", exposedAgain)
 	r.Count("done_second_calls_while_a_newer_conn_of_the_address_was_held", exposedAgainNewer)
 	r.Count("done_calls_of_failed_requests_while_a_conn_of_the_address_was_held", exposedNoop)
@@ -1209,6 +1281,9 @@ func postMerge(tier string, c map[string]int64) []string {
 	if c["dials_failed_by_cancellation"] == 0 {
 		out = append(out, "no dial was cancelled through the first caller's context")
 	}
+	if c["done_concurrent_extra_calls_while_other_holders_of_the_conn_existed"] == 0 {
+		out = append(out, "no concurrent call of one done function from several goroutines was executed while other holders existed")
+	}
 	if c["done_second_calls"] == 0 || c["done_calls_of_failed_requests"] == 0 {
 		out = append(out, "no second release / no release of a failed request was executed")
 	}
@@ -1229,7 +1304,7 @@ func main() {
 	}
 	vlib.Main(&vlib.Spec{
 		ID:   "C16",
-		Rule: "Concurrent trials on the real connection.Manager (NewManagerCustom, two dialer names sharing one scripted dial function): 4-32 goroutines x 2-40 acquire/hold/release cycles over 1-3 addresses (optionally skewed to one), GOMAXPROCS 2/4/8/16, per-address dial scripts drawn from the trial seed (success / error / slow by yielding, sleeping or waiting for joiners / honours-cancel), caller contexts background / cancelled before the call / cancelled during it, unknown dialer names, holds of none / yields / microseconds / across later cycles, second releases with probability 0.2 (immediately or cycles later, also while the worker holds a newer connection of that address), releases of failed requests, stop-the-world quiescent checks at seeded moments and at the end; seeded delays at connection.join / connection.dialfail, and in half of the trials connection.dialfail is gated until further callers joined, which are then released into the instant the failure is published. Every call/return, dial start/end, connection.close event and connectivity state sample is stamped by one atomic clock and judged after the trial. A trial is distinct non-trivial when the oracle ran to a verdict, at least one dial was shared by two or more callers and at least one dial failed or an address was re-dialled after its connection's last release; the hash is over the per-dial (address, outcome, number of callers served) sequence and the per-call (worker, address, result class) sequence in clock order.",
+		Rule: "Concurrent trials on the real connection.Manager (NewManagerCustom, two dialer names sharing one scripted dial function): 4-32 goroutines x 2-40 acquire/hold/release cycles over 1-3 addresses (optionally skewed to one), GOMAXPROCS 2/4/8/16, per-address dial scripts drawn from the trial seed (success / error / slow by yielding, sleeping or waiting for joiners / honours-cancel), caller contexts background / cancelled before the call / cancelled during it, unknown dialer names, holds of none / yields / microseconds / across later cycles, second releases with probability 0.2 (immediately or cycles later, also while the worker holds a newer connection of that address), 2-12% of the releases performed by calling the SAME done function from the holder and 1-2 helper goroutines at the same instant (spin barrier; counted as one release by the harness), releases of failed requests, stop-the-world quiescent checks at seeded moments and at the end; seeded delays at connection.join / connection.dialfail, and in half of the trials connection.dialfail is gated until further callers joined, which are then released into the instant the failure is published. Every call/return, dial start/end, connection.close event and connectivity state sample is stamped by one atomic clock and judged after the trial. A trial is distinct non-trivial when the oracle ran to a verdict, at least one dial was shared by two or more callers and at least one dial failed or an address was re-dialled after its connection's last release; the hash is over the per-dial (address, outcome, number of callers served) sequence and the per-call (worker, address, result class) sequence in clock order.",
 		Assumptions: []string{
 			"closed is observed as connectivity state Shutdown of a real *grpc.ClientConn made by grpc.NewClient on a passthrough target (no traffic); grpc sets that state synchronously inside Close",
 			"'closed at most once' is judged from connection.close verif-point events only when such events were observed; every other clause is independent of the hooks, which only delay / gate",
